@@ -73,3 +73,87 @@ def run_c07(prop, tier):
                 "non-trivial = the call site needs a keyword moved or a default filled, or must be refused")
     rep.assumptions = ["values are distinct small ints; defaults are ints or strs"]
     return rep.finish()
+
+
+# ------------------------------------------------------------------------------------------------
+# C08
+PLANS08 = {"quick": [(2, 3, 9000)], "thorough": [(2, 3, None), (3, 3, 60000), (2, 4, 60000)]}
+
+
+def run_c08(prop, tier):
+    rep = common.Report(prop, tier)
+    cases = []
+    fams = {}
+    ns = None
+    for (maxops, maxext, keep) in PLANS08[tier]:
+        d = tlcrun.fresh_dir(common.outdir(prop, f"gen_{maxops}_{maxext}"))
+        cfg = os.path.join(d, "gen.cfg")
+        tlcrun.write_cfg(cfg, constants={"MaxOps": maxops, "MaxExt": maxext}, invariants=["Export"])
+        st = tlcrun.run("GenTypes", cfg, d, env={"OUT_FILE": os.path.join(d, "c.ndjson"),
+                                                 "UNIVERSE_FILE": os.path.join(d, "u.ndjson")}, workers=16)
+        rep.add_tlc(st)
+        if ns is None:
+            classes = codec.load_ndjson(os.path.join(d, "u.ndjson"))
+            src = replay_typed.universe_source(classes)
+            ns = {}
+            exec(compile(src, "<universe C08>", "exec"), ns)
+            rep.extra["universe"] = [c["name"] + ("[" + ",".join(c["params"]) + "]" if c["params"] else "")
+                                     for c in classes]
+        got = sorted({line.strip() for line in open(os.path.join(d, "c.ndjson")) if line.strip()})
+        total = len(got)
+        got = [json.loads(c) for c in got]
+        if keep is not None:
+            got = common.subsample(got, keep, salt=f"c08{maxops}{maxext}")
+        fams[f"ops{maxops}_ext{maxext}"] = {"generated": total, "replayed": len(got), "exhaustive": len(got) == total}
+        cases += got
+    recs = [replay_typed.run_types_case(i, c, ns) for i, c in enumerate(cases)]
+    vrecs = [{"id": r["id"], "kind": "types", "ops": r["ops"],
+              "obs": [{"res": o["res"], "ty": o["ty"]} for o in r["obs"]]} for r in recs]
+    out, vst = common.validate(prop, "types", "TraceTyped", vrecs, per_shard=600,
+                               verdict_id=lambda v: v["verdict"]["id"])
+    rep.add_tlc(vst)
+    rep.traces = len(recs)
+    rep.evaluations = len(recs)
+    counts = {}
+    seen_types = set()
+    for cid, o in sorted(out.items()):
+        v = o["verdict"]
+        r = recs[cid]
+        key = v["v"] + (":" + v["clause"] if v["clause"] else "")
+        counts[key] = counts.get(key, 0) + 1
+        if v["v"] == "ACCEPT":
+            rep.nontrivial += 1
+            for w in o["spec"]["want"]:
+                seen_types.add(codec.dumps(w["ty"]))
+            if cid % 1499 == 0:
+                rep.sample({"query": r["source"], "item_types": [type_src(w["ty"]) if w["res"] == "ok" else w["res"]
+                                                                 for w in o["spec"]["want"]]})
+        elif v["v"] == "REJECT":
+            st = int(v["info"]) - 1
+            rep.reject(cid, v["clause"], {"property": prop, "query": r["source"], "stage": st + 1,
+                                          "observed": {"res": r["obs"][st]["res"], "type": type_src(r["obs"][st]["ty"]),
+                                                       "msg": r["obs"][st].get("msg", "")},
+                                          "expected": {"res": o["spec"]["want"][st]["res"],
+                                                       "type": type_src(o["spec"]["want"][st]["ty"])},
+                                          "case": cases[cid], "verdict": v})
+        else:
+            raise common.MachineryError("UNMODELLED record in C08")
+    rep.extra.update(families=fams, verdicts=counts, distinct_expected_types=len(seen_types))
+    rep.rule = ("cases = behaviours of spec/GenTypes.tla: the type follower as a transition system over the class model "
+                "of TypeFollow.Universe (plain classes, Generic[T] class, generic subclass fixing T, generic subclass "
+                "re-parameterising, custom Iterable subclass with own methods and a subclass fixing its parameter, a "
+                "registered collection class adding operators, methods without return annotation); each step applies one "
+                "typing rule that fits the current type; chains of <= MaxOps Select/SelectMany/Where; real classes are "
+                "generated from the exported class model; TLC judges observed item types / Where refusal against "
+                "TypeFollow.StreamResult; non-trivial = accepted chain (every chain exercises at least one rule)")
+    rep.exhaustive = all(f["exhaustive"] for f in fams.values())
+    rep.assumptions = ["one class model family (spec/TypeFollow.tla Universe); single inheritance"]
+    return rep.finish()
+
+
+def type_src(t):
+    if t["k"] == "rec":
+        return "{" + ", ".join(f"{k}: {type_src(v)}" for k, v in zip(t["p"], t["a"])) + "}"
+    if t["a"]:
+        return t["s"] + "[" + ", ".join(type_src(a) for a in t["a"]) + "]"
+    return t["s"]
